@@ -95,13 +95,9 @@ func (t *ParsedTable) ToMarkdown() string {
 	}
 	result += "\n"
 
-	// Data rows (skip first if it was header)
-	startRow := 1
-	if !t.HasHeader && len(t.Rows) > 1 {
-		startRow = 0
-	}
-
-	for i := startRow; i < len(t.Rows); i++ {
+	// Data rows. The first row has been written above the separator whether or
+	// not it is a header row (a pipe table needs one), so it is never repeated.
+	for i := 1; i < len(t.Rows); i++ {
 		result += "|"
 		for _, cell := range t.Rows[i] {
 			result += " " + escapeMarkdown(cell.Text) + " |"
